@@ -81,8 +81,20 @@ def r1_attributes(chk, cf):
                 if isinstance(s, ast.AugAssign) and norm(s.target) == norm(e):
                     got |= _xml_attrs(provenance(pa.node, s.value, pa.params(), asg))
         foreign = (got & all_attrs) - {attr}
-        chk.decide(attr in got and not foreign, "C13.R1", key, pa.where(c), f"{slot} <- node.get('{attr}')",
-                   f"Atom {slot} is computed from {sorted(got & all_attrs) or 'no drawing attribute'}; the drawing stores it under '{attr}'")
+        # control dependence: what is stored into the local(s) behind this slot must not be decided by another drawing attribute
+        # (`if not Element: isotope = None` drops the isotope of every implicit-carbon node)
+        from ..canon import path_conditions
+
+        ctl = set()
+        for nm_ in names_in(e):
+            for s_ in walk_no_nested(pa.node):
+                if isinstance(s_, ast.Assign) and nm_ in stored_paths(s_):
+                    for cnd in path_conditions(pa.node, s_):
+                        ctl |= _xml_attrs(provenance(pa.node, cnd, pa.params(), asg))
+        foreign_ctl = (ctl & all_attrs) - {attr}
+        chk.decide(attr in got and not foreign and not foreign_ctl, "C13.R1", key, pa.where(c), f"{slot} <- node.get('{attr}')",
+                   (f"Atom {slot} is computed from {sorted(got & all_attrs) or 'no drawing attribute'}; the drawing stores it under '{attr}'" if (attr not in got or foreign) else
+                    f"whether Atom {slot} takes the drawn '{attr}' is decided by {sorted(foreign_ctl)}: nodes that lack that attribute (e.g. implicit carbons have no 'Element') lose their '{attr}'"))
     hy = [s for s in walk_no_nested(pa.node) if "__implicit_hydrogens" in norm(s) and isinstance(s, (ast.AugAssign, ast.Assign))]
     chk.decide(bool(hy) and "numhs" in norm(hy[0]) or (bool(hy) and "NumHydrogens" in norm(hy[0])), "C13.R1", f"{pa.key}:implicit-hydrogen-hint", pa.where(hy[0] if hy else None),
                "attrib['__implicit_hydrogens'] = int(NumHydrogens)", "the NumHydrogens hint is not stored under '__implicit_hydrogens'")
@@ -497,6 +509,18 @@ def r5_determinism(chk, cf):
             marks = {n.id for n in cfg.nodes if n.kind == "stmt" and any(n.ast is s for s in stores + reads)}
             goal = {n.id for n in cfg.nodes if n.kind == "stmt" and n.ast is rets[0]}
             ok = bool(goal) and cfg.path([cfg.entry], goal, avoid=marks) is None
+    # what a label resolves to must not depend on what was looked up before: the cache is only asked about this key
+    odd = []
+    for n_ in walk_no_nested(gi.node):
+        if isinstance(n_, ast.Attribute) and norm(n_) == "self.xfrag_cache":
+            par = [p_ for p_ in walk_no_nested(gi.node) if any(c_ is n_ for c_ in ast.iter_child_nodes(p_))]
+            p_ = par[0] if par else None
+            fine = (isinstance(p_, ast.Subscript) and p_.value is n_ and norm(p_.slice) == kname) or \
+                   (isinstance(p_, ast.Compare) and len(p_.ops) == 1 and isinstance(p_.ops[0], (ast.In, ast.NotIn)) and p_.comparators[0] is n_ and norm(p_.left) == kname)
+            if not fine:
+                odd.append(p_ if p_ is not None else n_)
+    chk.decide(not odd, "C13.R5", f"{gi.key}:resolution-independent-of-earlier-lookups", gi.where(odd[0] if odd else None), "the cache is consulted for the requested key only",
+               f"`{short(odd[0], 60) if odd else ''}` reads the cache beyond the requested key: which fragment a label resolves to depends on which labels were looked up before on the same object")
     chk.decide(ok, "C13.R5", f"{gi.key}:label-resolves-to-one-fragment", gi.where(), "cache hit returns the cached fragment; both resolution branches cache the fragment they return",
                "the label -> fragment resolution does not cache exactly the fragment it returns in every branch: the same label can resolve differently on a later call")
 
